@@ -896,6 +896,8 @@ def load_ledger():
 
 def run_ledger(ctx, rule_id, title, entries, stop=(), floor=1, include_exits=False, only=None, profile_note=None):
     """standard driver: enumerate, discharge, report"""
+    if ctx.profile != "dev":
+        floor = max(1, floor // 4)      # overflow and debug assertions are compiled out of release MIR
     ctx.rule(rule_id, title, floor=floor)
     L = Ledger(ctx, entries, stop=stop, include_exits=include_exits)
     for n in L.reach:
